@@ -169,6 +169,22 @@ let () =
        | 2 ->
          let l = next_list next_nat in
          let (ab', s') = insert_absence c l (!ab, !s) in ab := ab'; s := s'
+       | 3 ->
+         let (ab', s') = reverse_log c (!ab, !s) in ab := ab'; s := s'
+       | 4 ->
+         let due = next_bool () in let rv = next_bool () in
+         let rule = z_of_int (next ()) in
+         let abs = next_list next_nat in
+         let auto_abs = next_bool () in
+         let ist = next_bool () in let ilg = next_bool () in
+         let mt = next_nat () in
+         let crank = next_list next_nat in
+         let o = { o_rule = rule; o_abs = abs; o_auto_abs = auto_abs; o_init_state = ist; o_init_log = ilg; o_max_time = mt; o_crank = crank } in
+         let (ab', s') = backward_simulate c due rv o (!ab, !s) in ab := ab'; s := s'
+       | 5 ->
+         let ist = next_bool () in let ilg = next_bool () in
+         let o = { o_rule = z_of_int 0; o_abs = []; o_auto_abs = false; o_init_state = ist; o_init_log = ilg; o_max_time = nat_of_int 0; o_crank = [] } in
+         s := initialize c o !s
        | _ -> failwith "unknown opcode");
       ps "DUMP"; pi oi; nl ();
       print_live c !s;
